@@ -1,5 +1,5 @@
 """Human-written manifest texts per property."""
-HOOK_COMMITS = []
+HOOK_COMMITS = ["116d336"]
 
 NOT_BUILT = "not claimed yet: model/theorems/correspondence for this property are not built in this round (planned in DESIGN.md section 7); the technique applies"
 
@@ -53,5 +53,23 @@ META = {
         "design_ref": "DESIGN.md 7 C17",
         "note": "Trusted: Lean kernel + 3 standard axioms; harness; heap and scheduler abstractions. Not covered yet: push operators vs pull operators, the real ParallelPipeline with threads, external sort / spilling aggregation and spill-file cleanup.",
         "technique": "Lean 4 proof (induction; permutation + sortedness for any minimal-head selection) + differential correspondence",
+    },
+    "C14": {
+        "text": "Machine-checked Lean 4 theorem over ALL sequences of store-level mutations (create/delete node, detach, create/delete edge, set/remove property, add/remove label, create/drop index): an inductive invariant (label index mirrors node_labels; identifiers are never reused; labelled nodes are live) gives 'label lookup = exactly the live nodes carrying the label' and 'a deleted node is listed under no label'. All other access paths (neighbour lists both directions, degrees, get_node, property lookup with and without index, counts, enumerations, with and without backward adjacency, crossing the adjacency chunk thresholds) are compared after every prefix with the model and with a plain-graph specification; two classes of genuine inconsistency are listed as known findings.",
+        "design_ref": "DESIGN.md 7 C14",
+        "note": "Trusted: Lean kernel + 3 standard axioms; harness; container abstractions. The theorem is for the label path only; the rest is correspondence (translation-validation strength).",
+        "technique": "Lean 4 proof (inductive invariant over operation sequences) + differential correspondence against model and plain-graph specification",
+    },
+    "C01": {
+        "text": "The full snapshot-read statement is REFUTED on this tree by machine-checked witness theorems (dirty read; entities created at epoch >= 1 missing from store-epoch enumerations), each replayed against the real sessions and listed as a known finding with its own signature. Proved for every state and reader (partial theorems): creations of transactions that began after the reader's snapshot are invisible; a transaction sees its own creations. The executable model of the session/store/manager layer reproduces the implementation exactly on generated multi-session histories (reads of every kind after almost every step, incl. GQL scans), and every impl-vs-snapshot-isolation-oracle difference must carry a listed signature.",
+        "design_ref": "DESIGN.md 7 C01",
+        "note": "Trusted: Lean kernel + 3 standard axioms; harness; the SI oracle in the driver. Histories use node/edge creation as mutations; property/label/delete mutations and SPARQL reads are not yet streamed.",
+        "technique": "Lean 4 proof (visibility lemmas + witness theorems) + differential correspondence against model and snapshot-isolation oracle",
+    },
+    "C02": {
+        "text": "Proved for every store state and every later reader: after rollback no versioned read returns a node all of whose versions the rolled-back transaction created; for the triple store, pending work is invisible to others and a transaction's view equals its post-commit view (shared with C13). Refuted by a witness theorem: an edge created in a rolled-back transaction stays in the adjacency lists (known finding). Correspondence: the same multi-session histories as C01, with every transaction ended by commit or rollback and all sessions reading everything afterwards.",
+        "design_ref": "DESIGN.md 7 C02",
+        "note": "Trusted: as C01. Mutations in the streamed histories are creations; failed commits and dropped sessions are not streamed.",
+        "technique": "Lean 4 proof (rollback lemma over the version table; RDF buffer theorems) + differential correspondence",
     },
 }
